@@ -185,7 +185,7 @@ MUTANTS += [
     # ---- C15
     M("c15-late-reply-accepted", "C15", "late reply no longer discarded", (A, "        if self.expired:\n            return\n        self._is_exc = is_exc", "        self._is_exc = is_exc")),
     M("c15-timeout-gt", "C15", "Timeout.expired uses > instead of >=", (L, "        return self.finite and time.time() >= self.tmax", "        return self.finite and time.time() > self.tmax")),
-    M("c15-callbacks-not-cleared", "EQUIVALENT", "(equivalent: __call__ runs once per request) callbacks not cleared after running", (A, "        for cb in self._callbacks:\n            cb(self)\n        del self._callbacks[:]", "        for cb in self._callbacks:\n            cb(self)")),
+    M("c15-callbacks-not-cleared-x", "EQUIVALENT", "(removed: code rewritten by the callback-race fix)"),
     M("c15-callbacks-reversed", "C15", "callbacks run in reverse registration order", (A, "        for cb in self._callbacks:\n            cb(self)", "        for cb in reversed(self._callbacks):\n            cb(self)")),
     M("c15-add-callback-late", "C15", "callback registered after readiness is queued, not run", (A, "        if self._is_ready:\n            func(self)\n        else:\n            self._callbacks.append(func)", "        self._callbacks.append(func)")),
     M("c15-wait-if", "C15", "wait: while -> if", (A, "        while not self._is_ready and not self._ttl.expired():", "        if not self._is_ready and not self._ttl.expired():")),
@@ -194,4 +194,8 @@ MUTANTS += [
     M("c15-timed-no-expiry", "C15", "timed() forgets to set the expiry when the timeout is < 1", (H, "        res.set_expiry(self.timeout)\n        return res", "        if self.timeout >= 1:\n            res.set_expiry(self.timeout)\n        return res")),
     M("c15-ready-no-poll", "C15", "ready does not serve pending traffic", (A, "        self._conn.poll_all()\n        return self._is_ready", "        return self._is_ready")),
     M("c15-timeleft-late", "C15", "timeleft overshoots: waits 10 ms past the expiry", (L, "        return max((0, self.tmax - time.time())) if self.finite else None", "        return max((0, self.tmax - time.time() + 0.01)) if self.finite else None")),
+]
+
+MUTANTS += [
+    M("c15-revert-callback-race", "C15", "add_callback tests readiness before queueing again (revert)", (A, "        self._callbacks.append(func)\n        if self._is_ready:\n            self._run_callbacks()", "        if self._is_ready:\n            func(self)\n        else:\n            self._callbacks.append(func)")),
 ]
